@@ -190,6 +190,28 @@ def check_order(ctx):
                     break
             if bad:
                 break
+        # write order must also survive the selection options
+        if bad is None:
+            root = tmp / "md_order"
+            _md_dataset(root, "fb")
+            d = Dataset(root)
+            for n in (1, 2, 5):
+                for k in (None, 5):
+                    ref = reference_sequence(d, root, "train", k=k, n=n)
+                    for iface in ("numpy", "concurrent"):
+                        n_eval += 1
+                        got = C.iterate(d, iface, "train", shards=k,
+                                        custom_metadata_type_limit=n,
+                                        file_parallelism=2)
+                        if got != ref:
+                            bad = dict(layout="metadata runs A B A C A",
+                                       interface=iface, limit=n, shards=k,
+                                       got=got, expected=ref)
+                            break
+                    if bad:
+                        break
+                if bad:
+                    break
     return [C.result(
         "unshuffled pass == write order (reference walk), every "
         "file_parallelism, repeated pass and reopen", bad is None,
